@@ -1,9 +1,9 @@
 (* C16 — The IPFS connector reports success only when the daemon reached the asked state.
-   Statements only; every proof is `exact <lemma of Proofs/C16_Connector.v>`.
+   Statements only; every proof is `exact <lemma of Proofs/C16_{Connector,Monitor,Atomic}.v>`.
    Quantification: every pin `p` (MaxDepth, Mode, origins, update source), every prior daemon table `d`,
    every behaviour script `s` (one behaviour per HTTP call, any length; an exhausted script behaves well).
    Trusted: the go-ipfs contract `act`/`serve` of Model/C16_Connector.v. `conn_pin` is the code with fix-S16. *)
-From V Require Import Base.Common Model.C16_Connector Model.C16_Check Proofs.C16_Connector Proofs.C16_Monitor.
+From V Require Import Base.Common Model.C16_Connector Model.C16_Check Proofs.C16_Connector Proofs.C16_Monitor Proofs.C16_Atomic.
 Open Scope Z_scope.
 
 (* a reported pin success means the daemon holds the CID in the asked mode
@@ -171,3 +171,31 @@ Example c16_monitor_example :
   check_case (7%N, (OpPin p, d, [], Obs ROk StBug [(0%N, Rec)] [CLs 0%N Rec; CLs 1%N Rec; CUpdate 1%N 0%N false] 2%N)) = [(7, 1, 0); (7, 12, 0)]%N /\
   check_case (7%N, (OpPin p, d, [BOk 0%N false; BOk 0%N false; BStall], model_obs (OpPin p) d [BOk 0%N false; BOk 0%N false; BStall] 0%N)) = [(7, 14, 1)]%N.
 Proof. cbv zeta. split; [split; [vm_compute; discriminate|intros H; discriminate H]|]. repeat split; vm_compute; reflexivity. Qed.
+
+(* ---- failure atomicity (the converse side of "success only when the daemon reached the asked state") ----
+   A Pin or Unpin that returns anything but success (error, or the update hang) has left the daemon's pin table exactly as it
+   was, for every pin, table and script in which no response is lost after the daemon acted. The exception is necessary:
+   pin_failure_atomic_needs_no_drop exhibits a lost response after which the daemon holds the pin and the connector,
+   rightly, reports an error. *)
+Theorem pin_failure_atomic p d s r d' x : conn_pin p d s = (r, d', x) -> r <> ROk -> no_acted_drop s = true -> d' = d.
+Proof. exact (pin_failure_atomic_l p d s r d' x). Qed.
+Print Assumptions pin_failure_atomic.
+
+Theorem unpin_failure_atomic dis c d s r d' x : conn_unpin dis c d s = (r, d', x) -> r <> ROk -> no_acted_drop s = true -> d' = d.
+Proof. exact (unpin_failure_atomic_l dis c d s r d' x). Qed.
+Print Assumptions unpin_failure_atomic.
+
+Theorem pin_failure_atomic_needs_no_drop : exists p d s d' x, conn_pin p d s = (RErr, d', x) /\ d' <> d.
+Proof. exact pin_failure_atomic_needs_no_drop_l. Qed.
+Print Assumptions pin_failure_atomic_needs_no_drop.
+
+(* non-vacuity: a direct pin asked for a CID the daemon holds recursively — pin/ls says not pinned as asked, pin/add
+   recursive=false is refused ("already pinned recursively"), the connector reports the error and the table is untouched;
+   and a trailer error after progress objects (the case fix-S16 repaired) likewise *)
+Example pin_failure_atomic_example :
+  no_acted_drop [BOk 0%N false; BOk 0%N false] = true /\
+  conn_pin (mk_pin 0%N 0 Dir 0%N None) [(0%N, Rec)] [BOk 0%N false; BOk 0%N false]
+    = (RErr, [(0%N, Rec)], [(CLs 0%N Dir, PErr MOther); (CAdd 0%N false None true, PErr MOther)]) /\
+  fst (fst (conn_pin (mk_pin 1%N (-1) Rec 0%N None) [(0%N, Rec)] [BOk 0%N false; BProgErr 2%N])) = RErr /\
+  snd (fst (conn_pin (mk_pin 1%N (-1) Rec 0%N None) [(0%N, Rec)] [BOk 0%N false; BProgErr 2%N])) = [(0%N, Rec)].
+Proof. repeat split; vm_compute; reflexivity. Qed.
